@@ -43,7 +43,7 @@ def fam_ns(prop, kset, n_prog, n_ops, names=None, salt=0, **kw):
     return via_entries(progs, rng)
 
 
-CS = {"K1": 512, "K1b": 512, "K2": 1024, "K3": 512, "K4": 4096, "K4b": 4096, "K5": 512, "K5b": 1024}
+CS = {"K1": 512, "K1b": 512, "K2": 1024, "K3": 512, "K4": 4096, "K4b": 4096, "K5": 512, "K5b": 1024, "K6": 65536}
 
 
 def via_entries(progs, rng, p=0.3):
@@ -370,6 +370,9 @@ def c02():
     # shrink / empty a file, let other files take the space (same session or after a remount), write it again
     reuse = [gen.reuse_program(rng, "reuse-%s-%d" % (k, i), gen.K(k), CS[k]) for k in ("K1", "K1b", "K2", "K5") for i in range(scale(8, 80))]
     res.append(("io-reuse", core.campaign("io-reuse", reuse, wd)))
+    # 64 KiB clusters (the cluster size does not fit 16 bits); contents observed in cells of 8 KiB, lengths and offsets in whole cells
+    big = [gen.scaled(gen.io_program(rng, "bigclu-%d" % i, gen.K("K6"), 65536 // 8192, 40, n_files=2, max_clusters=3), 8192) for i in range(scale(4, 40))]
+    res.append(("io-bigcluster", core.campaign("io-bigcluster", big, wd)))
     # files in the highest cluster numbers of the largest FAT12 / FAT16 volumes
     top = []
     for i in range(scale(6, 60)):
